@@ -7,7 +7,6 @@ from __future__ import annotations
 
 import inspect
 import linecache
-import textwrap
 import types
 from collections.abc import Callable
 from typing import TYPE_CHECKING
@@ -134,7 +133,7 @@ class Gateway(gateway_base.BaseGateway):
             file_name = inspect.getsourcefile(source)
             source = _source_of_function(source)
         else:
-            source = textwrap.dedent(str(source))
+            source = _dedent(str(source))
 
         if not call_name and kwargs:
             raise TypeError("can't pass kwargs to non-function remote_exec")
@@ -209,6 +208,36 @@ def _find_non_builtin_globals(
     ]
 
 
+def _dedent(text: str) -> str:
+    """Remove the leading whitespace all lines have in common.
+
+    Like textwrap.dedent(), except that lines which consist of whitespace
+    only are left alone (apart from the common margin): they may belong to
+    a string literal of the source, which has to arrive as it was written.
+    """
+    margin: str | None = None
+    lines = text.split("\n")
+    for line in lines:
+        content = line.lstrip(" \t")
+        if not content:
+            continue
+        indent = line[: len(line) - len(content)]
+        if margin is None:
+            margin = indent
+        elif not indent.startswith(margin):
+            common = 0
+            for a, b in zip(margin, indent):
+                if a != b:
+                    break
+                common += 1
+            margin = margin[:common]
+    if not margin:
+        return text
+    return "\n".join(
+        line[len(margin) :] if line.startswith(margin) else line for line in lines
+    )
+
+
 def _source_of_function(function: types.FunctionType | Callable[..., object]) -> str:
     if function.__name__ == "<lambda>":
         raise ValueError("can't evaluate lambda functions'")
@@ -234,7 +263,7 @@ def _source_of_function(function: types.FunctionType | Callable[..., object]) ->
     except OSError as e:
         raise ValueError("can't find source file for %s" % function) from e
 
-    source = textwrap.dedent(source)  # just for inner functions
+    source = _dedent(source)  # just for inner functions
 
     used_globals = _find_non_builtin_globals(
         source, codeobj, getattr(function, "__globals__", None)
